@@ -38,6 +38,16 @@ CHECKS = {
         'note': TB + 'Normalised-mantissa representation (top bit set) is assumed by the order abstraction and is itself checked structurally (D4). Not decided: exactness of the 64-bit arithmetic values, 1e-12 accuracy, float round-trip, exact_phase_and_sqrt2_pow.',
         'technique': 'finite-abstraction evaluation of the comparison, flag-taint dataflow on all paths, pairing rule, cast rule over call-graph closure, table extraction by partial evaluation',
     },
+    'C10': {
+        'text': 'Static: phase/vars co-transfer at every site where a vertex\'s phase flows into another vertex\'s phase (symbolic effect summaries, also through '
+                'loop accumulators); vars-consistency of the scalar effects of pi-copy, local comp, pivot, remove single, remove pair: with parities present the '
+                'scalar equals the parameter-free scalar at the shifted phases for every presence pattern and assignment (exact algebra in Q(omega), finite phase '
+                'domains from the matchers enumerated); each rule handles a vertex\'s parities or its matcher requires them absent; Parity constructors and recognisers '
+                'agree (recogniser evaluated on the constructor literal), Expr::quadratic normal form, private fields, both back ends multiply scalar factors on '
+                'collision; both measurement arms attach the given or a fresh parity to their X effect.',
+        'note': TB + 'The parameter-free branch of each rule is the oracle for its boolean-variable branch. Not decided: Parity merge loop values, instantiation semantics, measurement circuits end to end.',
+        'technique': 'symbolic effect summaries with pairing obligations, exact Q(omega)/Laurent-polynomial algebra over extracted scalar effects, constructor/recogniser evaluation on literals, sibling rules',
+    },
     'C14': {
         'text': 'Static: the two QASM name tables are mutually inverse for every kind but UnknownGate and use the standard names; the arity table equals '
                 'the reference; the opaque prelude declares every gate name of the property with the arity of num_qubits() and a parameter exactly when '
